@@ -361,6 +361,36 @@ def oracles(ctx, deep):
                     add(Violation("bbox-window", "crop_to_bbox(%s %s, %s) differs from the addressed window with pad value" % (kind, shape, cs + ss), {"shape": shape, "bbox": cs + ss, "observed": got.tolist(), "expected": want.tolist()}, {"fn": "crop_to_bbox", "box_overlaps_data": overlap}))
             except Exception as e:  # noqa
                 add(Violation("bbox-window", "crop_to_bbox(%s %s, %s) raises %s" % (kind, shape, cs + ss, type(e).__name__), {"shape": shape, "bbox": cs + ss, "expected": want.tolist()}, {"fn": "crop_to_bbox", "raises": True, "box_overlaps_data": overlap}))
+    # random crops (uniform and gaussian sampler): what comes back is a window of the data, never padding
+    for t in range(ctx.n(60, 600)):
+        three = rng.random() < 0.3
+        sp = [rng.randint(2, 5)] * (1 if three else 0) + [rng.randint(3, 9), rng.randint(3, 9)]
+        crop = [rng.randint(1, d) for d in sp]
+        if rng.random() < 0.4:
+            j = rng.randrange(len(sp))
+            crop[j] = sp[j]  # an axis that is not cropped at all
+        sampler = rng.choice(["uniform", "gaussian", "gaussian"])
+        seed = rng.randrange(10**6)
+        n = 1
+        for d in sp:
+            n *= d
+        data = (torch.arange(2 * n * 2, dtype=torch.float32) + 1.0).reshape(2, *sp, 2)
+        runs += 1
+        cfg = {"shape": [2] + sp + [2], "crop": crop, "sampler": sampler, "seed": seed}
+        try:
+            got = T.complex_random_crop(data, crop, sampler=sampler, seed=seed)
+        except Exception as e:  # noqa
+            add(Violation("random-crop-window", "complex_random_crop raises %s for %s" % (type(e).__name__, cfg), {"config": cfg}, {"fn": "complex_random_crop", "kind": "raises"}))
+            continue
+        ok = list(got.shape) == [2] + crop + [2] and bool((got != 0).all())
+        if ok:
+            # all values are distinct: the first element addresses the window
+            first = int(got.reshape(-1)[0].item()) - 1
+            idx = np.unravel_index(first, data.shape)
+            sl = tuple([slice(None)] + [slice(int(a), int(a) + c) for a, c in zip(idx[1:-1], crop)] + [slice(None)])
+            ok = tuple(idx[1:-1]) is not None and idx[0] == 0 and idx[-1] == 0 and data[sl].shape == got.shape and bool(torch.equal(data[sl], got))
+        if not ok:
+            add(Violation("random-crop-window", "complex_random_crop(%s sampler) does not return a window of the data (zero-filled border or wrong shape %s) for %s" % (sampler, list(got.shape), cfg), {"config": cfg}, {"fn": "complex_random_crop", "kind": "window", "sampler": sampler}))
     # CropKspace / PadKspace = forward(crop/pad(backward(kspace)))
     out_k, runs_k = _kspace_oracles(ctx, deep)
     for v in out_k:
